@@ -37,7 +37,7 @@ def run(tier):
     v = common.Verdict(PID, tier, "model_checking")
     b = common.build(need_inproc=False)
     cs = cfgs(tier)
-    rp = l3.Replay(b, v, cs, "checks.c03:judge", variants=2 if tier == "quick" else 3, pad_arrays=True)
+    rp = l3.Replay(b, v, cs, "checks.c03:judge", variants=2 if tier == "quick" else 3, pad_arrays=True, twins=True)
     shapes = '{"s","sa","os","aos","aas","aaos","oas","xdate","xbin","xdateNL","eo","ea","sao","saa"}' if tier == "quick" else "{}"
     t = l3.generate("RedactorTW", "RedactorTW.cfg", cs, {"TWShapeKinds": shapes}, rp.sink)
     if not t.ok:
@@ -56,11 +56,14 @@ def run(tier):
         states += t2.distinct
         trans += t2.generated
     rp.finish()
+    # documents nested deeper than TLC's bounded trees (to 300 levels, thorough 1000), inside and outside the zones: same shape out as in
+    from checks.c04 import depth_ladder
+    ndeep = depth_ladder(b, v, [c for c in cs if not c.re], tier, shape_in_zone=True)
     for s in rp.stray_samples[:3]:
         v.violation("stray output line (not one JSON object with the line's id): %s" % s["why"], s)
     v.cov.update({"states": states, "transitions": trans, "traces_validated_against_impl": v.cov["evaluations"],
                   "exhaustive": True, "abstract_cases": rp.records, "flag_sets": [c.desc() for c in cs],
-                  "lines_without_output": rp.extra.get("no_output", 0), "crashed_lines": rp.crashes,
+                  "lines_without_output": rp.extra.get("no_output", 0), "crashed_lines": rp.crashes, "depth_ladder_lines": ndeep,
                   "rule": "cases = states of spec/RedactorTW.tla (every entry of the five operator tables at every depth x context x leaf shape)"
                           + (" + spec/RedactorFree.tla (every vocabulary key over every key/array to depth 2)" if tier == "thorough" else "")
                           + "; each replayed through `anonymongo redact` under every flag set; non-trivial/distinct = distinct "
